@@ -41,6 +41,37 @@ def make_pin(rng):
     return pm, dict(D=D, clad_thickness=tc, gap=gap, r_frac=rf, kind=kind, annular=annular)
 
 
+def cond(mat, T):
+    mat.update(float(T))
+    return float(mat.thermal_conductivity)
+
+
+def fuel_chain(pm, info, q, Tsurf):
+    """independent evaluation of the fuel shell chain of Model/Pin.lean (fuelShells): geometry from the generated input, every
+    shell with the mean of ITS OWN material's conductivity at its two faces, fixed point solved to 1e-10 K"""
+    import copy
+    R = info['D'] / 2 - info['clad_thickness'] - info['gap']
+    rf = list(info['r_frac'])
+    bounds = rf + [1.0]
+    qd = q / (math.pi * R * R * (1.0 - rf[0] ** 2))
+    mats = [copy.deepcopy(m) for m in pm.fuel['mat']]
+    T = float(Tsurf)
+    for i in reversed(range(len(rf))):
+        d = 0.25 * R * R * (bounds[i + 1] ** 2 - bounds[i] ** 2)
+        kout = cond(mats[i], T)
+        Tin = T + d * qd / kout
+        for _ in range(500):
+            Tn = T + d * qd / (0.5 * (cond(mats[i], Tin) + kout))
+            done = abs(Tn - Tin) < 1e-10
+            Tin = Tn
+            if done:
+                break
+        else:
+            return None
+        T = Tin
+    return T
+
+
 def check_relations(ctx, pm, info, q, Tc, h, dz, T):
     """the model's relations on the reported temperatures (one pin)"""
     tol = 2e-2       # K: iteration tolerance of the code is 1e-3 per node
@@ -55,8 +86,18 @@ def check_relations(ctx, pm, info, q, Tc, h, dz, T):
     want = C * pm.clad['ln_r2r'] / kc
     if abs((T[3] - T[1]) - want) > tol + 1e-3 * abs(want):
         return "clad", "clad drop %.6g differs from q' ln(r_o/r_i)/(2 pi k) = %.6g (k at the reported temperatures)" % (T[3] - T[1], want)
+    want_mw = C * pm.clad['ln_r2r_2node'][1] / kc
+    if abs((T[2] - T[1]) - want_mw) > tol + 1e-3 * abs(want_mw):
+        return "clad-midwall", "clad OD -> mid-wall drop %.6g differs from q' ln(r_o/r_m)/(2 pi k) = %.6g" % (T[2] - T[1], want_mw)
     if pm.gap['dr'] == 0.0 and T[4] != T[3]:
         return "gap", "no gap but fuel surface temperature differs from clad inner temperature"
+    if info['r_frac'][-1] != 1.0:
+        cl = fuel_chain(pm, info, q, T[4])
+        if cl is not None:
+            ctx.count("fuel_chain_checked")
+            if abs(cl - T[5]) > tol + 1e-4 * abs(cl - T[4]):
+                return "fuel-shells", ("fuel centre temperature %.6f K differs from the shell-by-shell conduction chain %.6f K (surface %.6f K; "
+                                       "each shell with its own conductivity at its face temperatures)" % (T[5], cl, T[4]))
     return None
 
 
